@@ -3,10 +3,16 @@
 package client
 
 import (
+	"context"
 	"io"
 	"net/http"
 
+	gosocks5 "github.com/armon/go-socks5"
+	"github.com/gorilla/mux"
+
+	v1 "github.com/fatedier/frp/pkg/config/v1"
 	httppkg "github.com/fatedier/frp/pkg/util/http"
+	netpkg "github.com/fatedier/frp/pkg/util/net"
 	"github.com/fatedier/frp/verif"
 )
 
@@ -86,4 +92,120 @@ func verif_https2http_handler(w http.ResponseWriter, r *http.Request) {
 	} else {
 		verif.Ensures(verif.CallCount(evFwd) == 1 && verif.CalledWith(evFwd, 2, r) && !verif.Called("ResponseWriter).WriteHeader"), "every_other_request_reaches_the_backend_proxy")
 	}
+}
+
+// HTTPS2HTTPPlugin.Handle (C02 "requests preserved apart from declared rewrites": the
+// plugin's reverse proxy appends the peer address of the connection it serves
+// to X-Forwarded-For): the stream queued for the plugin's http server is the
+// work connection's stream, and when the tunnel reported the user's address
+// that address - the source, not the address the user connected to - is the
+// connection's peer address.
+//
+//verif:contract (*~/pkg/plugin/client.HTTPS2HTTPPlugin).Handle
+//verif:props C02
+//verif:kinds post,pre
+func verif_HTTPS2HTTPPlugin_Handle(p *HTTPS2HTTPPlugin, ctx context.Context, connInfo *ConnectionInfo) {
+	verif.Requires(connInfo != nil && p.l != nil, "called_by_the_proxy_with_connection_information")
+	src, conn, under := connInfo.SrcAddr, connInfo.Conn, connInfo.UnderlyingConn
+	verif.ResetEvents()
+	p.Handle(ctx, connInfo)
+	const evWrap, evAddr, evPut = "net.WrapReadWriteCloserToConn", "WrapReadWriteCloserConn).SetRemoteAddr", "Listener).PutConn"
+	w := verif.Ret[*netpkg.WrapReadWriteCloserConn](evWrap, 0)
+	verif.Ensures(verif.CallCount(evWrap) == 1 && verif.Same(verif.NthArg[any](evWrap, 0, 0), any(conn)) && verif.Same(verif.NthArg[any](evWrap, 0, 1), any(under)), "stream_of_the_work_connection_is_wrapped")
+	if src != nil {
+		verif.Ensures(verif.CallCount(evAddr) == 1 && verif.CalledWith(evAddr, 0, w) && verif.Same(verif.NthArg[any](evAddr, 0, 1), any(src)), "peer_address_is_the_users_source_address")
+	} else {
+		verif.Ensures(!verif.Called(evAddr), "no_address_no_override")
+	}
+	verif.Ensures(verif.CallCount(evPut) == 1 && verif.CalledWith(evPut, 0, p.l) && verif.Same(verif.NthArg[any](evPut, 0, 1), any(w)), "that_connection_is_queued_for_the_plugins_server")
+}
+
+// HTTPS2HTTPSPlugin.Handle (C02 "requests preserved apart from declared rewrites": the
+// plugin's reverse proxy appends the peer address of the connection it serves
+// to X-Forwarded-For): the stream queued for the plugin's http server is the
+// work connection's stream, and when the tunnel reported the user's address
+// that address - the source, not the address the user connected to - is the
+// connection's peer address.
+//
+//verif:contract (*~/pkg/plugin/client.HTTPS2HTTPSPlugin).Handle
+//verif:props C02
+//verif:kinds post,pre
+func verif_HTTPS2HTTPSPlugin_Handle(p *HTTPS2HTTPSPlugin, ctx context.Context, connInfo *ConnectionInfo) {
+	verif.Requires(connInfo != nil && p.l != nil, "called_by_the_proxy_with_connection_information")
+	src, conn, under := connInfo.SrcAddr, connInfo.Conn, connInfo.UnderlyingConn
+	verif.ResetEvents()
+	p.Handle(ctx, connInfo)
+	const evWrap, evAddr, evPut = "net.WrapReadWriteCloserToConn", "WrapReadWriteCloserConn).SetRemoteAddr", "Listener).PutConn"
+	w := verif.Ret[*netpkg.WrapReadWriteCloserConn](evWrap, 0)
+	verif.Ensures(verif.CallCount(evWrap) == 1 && verif.Same(verif.NthArg[any](evWrap, 0, 0), any(conn)) && verif.Same(verif.NthArg[any](evWrap, 0, 1), any(under)), "stream_of_the_work_connection_is_wrapped")
+	if src != nil {
+		verif.Ensures(verif.CallCount(evAddr) == 1 && verif.CalledWith(evAddr, 0, w) && verif.Same(verif.NthArg[any](evAddr, 0, 1), any(src)), "peer_address_is_the_users_source_address")
+	} else {
+		verif.Ensures(!verif.Called(evAddr), "no_address_no_override")
+	}
+	verif.Ensures(verif.CallCount(evPut) == 1 && verif.CalledWith(evPut, 0, p.l) && verif.Same(verif.NthArg[any](evPut, 0, 1), any(w)), "that_connection_is_queued_for_the_plugins_server")
+}
+
+// socks5 plugin (C07 "the http_proxy, socks5 and static_file client plugins ...
+// no request is served unless it presents exactly that user name and
+// password"): when a user name or password is configured, the server is built
+// with exactly that one credential pair and without an explicit list of
+// authentication methods - the library then offers user/password
+// authentication only (an explicit list could re-admit "no authentication");
+// without credentials none are installed.
+//
+// Library contract (trusted, listed; read in go-socks5/socks5.go): New fills
+// in defaults for the method list, resolver, rule set and logger of the
+// configuration it is handed and leaves the credential store alone; with an
+// empty method list and a credential store it offers user/password
+// authentication only. The precondition is what the plugin must hand it.
+//
+//verif:contract github.com/armon/go-socks5.New
+//verif:trusted
+//verif:modifies H.github.com/armon/go-socks5.Config.AuthMethods H.github.com/armon/go-socks5.Config.Resolver H.github.com/armon/go-socks5.Config.Rules H.github.com/armon/go-socks5.Config.Logger
+func verif_gosocks5_New(conf *gosocks5.Config) {
+	verif.Requires(conf != nil && len(conf.AuthMethods) == 0, "no_explicit_method_list")
+	_, _ = gosocks5.New(conf)
+}
+
+//verif:assume-typeassert ~/pkg/plugin/client.NewSocks5Plugin
+//verif:contract ~/pkg/plugin/client.NewSocks5Plugin
+//verif:props C07
+//verif:kinds post,pre
+func verif_NewSocks5Plugin(pc PluginContext, options v1.ClientPluginOptions) {
+	opts, isS5 := options.(*v1.Socks5PluginOptions)
+	verif.Requires(isS5 && opts != nil, "socks5_options")
+	user, pwd := opts.Username, opts.Password
+	verif.ResetEvents()
+	_, _ = NewSocks5Plugin(pc, options)
+	const evNew = "go-socks5.New"
+	c := verif.NthArg[*gosocks5.Config](evNew, 0, 0)
+	verif.Ensures(verif.CallCount(evNew) == 1 && c != nil, "one_server_built")
+	if user != "" || pwd != "" {
+		creds, isStatic := c.Credentials.(gosocks5.StaticCredentials)
+		verif.Ensures(isStatic && len(creds) == 1 && verif.Has(creds, user) && creds[user] == pwd, "exactly_the_configured_credential_pair")
+	} else {
+		verif.Ensures(c.Credentials == nil, "no_credentials_without_configuration")
+	}
+}
+
+// static_file plugin (C07): everything the plugin serves hangs off a router
+// that carries the basic-auth middleware built from the configured user name
+// and password, installed before the file handler is registered.
+//
+//verif:assume-typeassert ~/pkg/plugin/client.NewStaticFilePlugin
+//verif:contract ~/pkg/plugin/client.NewStaticFilePlugin
+//verif:props C07
+//verif:kinds post,pre
+func verif_NewStaticFilePlugin(pc PluginContext, options v1.ClientPluginOptions) {
+	opts, isSF := options.(*v1.StaticFilePluginOptions)
+	verif.Requires(isSF && opts != nil, "static_file_options")
+	user, pwd := opts.HTTPUser, opts.HTTPPassword
+	verif.ResetEvents()
+	_, _ = NewStaticFilePlugin(pc, options)
+	const evMw, evUse, evRoute = "net.NewHTTPAuthMiddleware", "mux.Router).Use", "mux.Router).PathPrefix"
+	r := verif.Ret[*mux.Router]("mux.NewRouter", 0)
+	verif.Ensures(verif.CallCount(evMw) == 1 && verif.CalledWith(evMw, 0, user) && verif.CalledWith(evMw, 1, pwd), "middleware_built_from_the_configured_credentials")
+	verif.Ensures(verif.CallCountWith(evUse, 0, r) == 1 && verif.CalledBefore(evUse, evRoute), "router_carries_the_middleware_before_any_route")
+	verif.Ensures(verif.CallCount("mux.Router).") == 2 && verif.CallCountWith(evRoute, 0, r) == 1, "the_file_handler_is_the_only_route_and_hangs_off_that_router")
 }
